@@ -499,3 +499,113 @@ def flood_idle():
     handlers = [['A', 'C', 'hC', [['ret', 'c']]]]
     main = [['burst_swallow', 'A', 'C', 'n', 'C'], ['idle', 'A'], ['obs_all', 'end']]
     return dict(buses=['A'], ints={'n': [48, 53]}, reals={}, handlers=handlers, main=main, max_history={'A': 10}, horizon=5, rejections_expected=True)
+
+
+# =========================================================================== sequence family M3 (generated operation sequences)
+def seq_program(idx, sym=('d1', 'd2', 't1')):
+    """A pseudo-randomly generated (seeded by idx, hence deterministic) two-bus program: handler kinds with children on the own or
+    the other bus, and a main script mixing dispatches, sleeps of symbolic length, (late) awaits, idle waits, late registration of
+    a wildcard handler and re-dispatch of completed events. Both buses are first used from main (not inside a handler)."""
+    import random
+    rng = random.Random(1000 + idx)
+    parB = rng.random() < 0.3
+    kinds = ['ret', 'sleep', 'raise', 'ffA', 'ffB', 'awaitA', 'awaitB', 'await_then_ffB', 'sleep_ffB']
+    nP = rng.choice([1, 2, 2])
+    ph = [rng.choice(kinds) for _ in range(nP)]
+    chA = rng.choice(['ret', 'sleep', 'two'])
+    chB = rng.choice(['ret', 'sleep', 'two', 'ffG'])
+    if chB == 'ffG' and any(k in ('awaitB',) for k in ph):
+        chB = 'sleep'      # a descendant dispatched to the other, running bus during an inline await is finding F1's mechanism
+    handlers = []
+
+    def pscript(k, i):
+        dv = 'd1'
+        r = f'p{i}'
+        return {
+            'ret': [['ret', r]], 'sleep': [['sleep', dv], ['ret', r]], 'raise': [['sleep', dv], ['raise', 'ValueError']],
+            'ffA': [['disp', 'A', 'C', 'C_{inv}'], ['sleep', dv], ['ret', r]],
+            'ffB': [['disp', 'B', 'C', 'C_{inv}'], ['ret', r]],
+            'awaitA': [['sleep', dv], ['dispawait', 'A', 'C', 'C_{inv}'], ['ret', r]],
+            'awaitB': [['sleep', dv], ['dispawait', 'B', 'C', 'C_{inv}'], ['read_bus'], ['ret', r]],
+            'await_then_ffB': [['dispawait', 'A', 'C', 'C_{inv}'], ['disp', 'B', 'L', 'L_{inv}'], ['ret', r]],
+            'sleep_ffB': [['sleep', dv], ['disp', 'B', 'C', 'C_{inv}'], ['read_bus'], ['ret', r]],
+        }[k]
+    for i, k in enumerate(ph):
+        handlers.append(['A', 'P', f'hP{i}', pscript(k, i)])
+    for bus, ch in (('A', chA), ('B', chB)):
+        if ch == 'ret':
+            handlers.append([bus, 'C', f'hC{bus}', [['ret', 'c']], {'sync': True}])
+        elif ch == 'sleep':
+            handlers.append([bus, 'C', f'hC{bus}', [['sleep', 'd2'], ['ret', 'c']]])
+        elif ch == 'two':
+            handlers.append([bus, 'C', f'hC{bus}', [['sleep', 'd2'], ['ret', 'c']]])
+            handlers.append([bus, 'C', f'hC{bus}2', [['raise', 'KeyError']], {'sync': True}])
+        elif ch == 'ffG':
+            handlers.append([bus, 'C', f'hC{bus}', [['disp', bus, 'G', 'G_{inv}'], ['ret', 'c']]])
+            handlers.append([bus, 'G', f'hG{bus}', [['sleep', 'd2'], ['ret', 'g']]])
+    handlers += [['A', 'X', 'hXA', [['ret', 'x']]], ['B', 'X', 'hXB', [['ret', 'x']]], ['B', 'L', 'hLB', [['ret', 'l']], {'sync': True}],
+                 ['A', 'G', 'hGA0', [['ret', 'g']], {'sync': True}]]
+    # ---- main script
+    main = [['root', 'B', 'X', 'X0'], ['idle', 'B']]     # B is first used from main and has been idle once
+    roots = []
+    awaited = set()
+    registered = False
+    nops = rng.randint(4, 6)
+    nidle = 0
+    nsleep = 0
+    for j in range(nops):
+        ops = ['rootP', 'rootX', 'sleep', 'idle']
+        if roots:
+            ops += ['await', 'await']
+        if awaited:
+            ops += ['redispatch']
+        if not registered:
+            ops += ['register']
+        op = rng.choice(ops)
+        if op == 'rootP' and len(roots) < 2:
+            lab = f'P{len(roots) + 1}'
+            roots.append(lab)
+            main.append(['root', 'A', 'P', lab])
+        elif op == 'rootX':
+            main.append(['root', rng.choice(['A', 'B']), 'X', f'Xm{j}'])
+        elif op == 'sleep' and nsleep < 1:
+            nsleep += 1
+            main.append(['sleep', 't1'])
+        elif op == 'idle' and nidle < 1:
+            nidle += 1
+            main.append(['idle', rng.choice(['A', 'B'])])
+        elif op == 'await':
+            lab = rng.choice(roots)
+            main.append(['await', lab])
+            main.append(['obs', 'after_await', lab])
+            awaited.add(lab)
+        elif op == 'redispatch':
+            lab = rng.choice(sorted(awaited))
+            main += [['idle', 'A'], ['redispatch', 'A', lab]]
+        elif op == 'register':
+            registered = True
+            main.append(['register', rng.choice(['A', 'B']), '*', 'hLateW'])
+    if not roots:
+        main.append(['root', 'A', 'P', 'P1'])
+        roots.append('P1')
+    for lab in roots:
+        if lab not in awaited:
+            main += [['await', lab], ['obs', 'after_await', lab]]
+    main += [['idle', 'A'], ['idle', 'B'], ['obs_all', 'end']]
+    reals = {'d1': ['0', '1/4'], 'd2': ['0', '1/5'], 't1': ['0', '3/10']}
+    cfg = dict(buses=['A', 'B'], order=['A', 'B'] if rng.random() < 0.5 else ['B', 'A'], parallel=['B'] if parB else [], reals=reals,
+               handlers=handlers, main=main, horizon=7, m3=True, features=dict(ph=ph, chA=chA, chB=chB, parB=parB))
+    used = json_dumps(handlers) + json_dumps(main)
+    for v in list(reals):
+        if f'"{v}"' not in used:
+            del reals[v]
+    # variables not in `sym` are pinned (quick tier: fewer symbolic reals per program, more programs)
+    pins = {'d1': '1/8', 'd2': '7/100', 't1': '13/100'}
+    for v in list(reals):
+        if v not in sym:
+            reals[v] = [pins[v], pins[v]]
+    return cfg
+
+
+def matrix3_rows(tier):
+    return list(range(48 if tier == 'quick' else 240))
